@@ -49,6 +49,9 @@ type c17Line struct {
 	// In a path-labelled ("spelled") program File is the file the path DENOTES
 	// (0 Makefile, 1 inc.mk, 2 inc2.mk), Path is how it is spelled.
 	Path string `json:"path,omitempty"`
+	// Cond: the line is inside a conditional section (.if 1 ... .endif), i.e.
+	// Indentation.IsConditional() is true when RedundantScope sees it
+	Cond bool `json:"cond,omitempty"`
 }
 
 type c17Prog []c17Line
@@ -107,6 +110,9 @@ func (l c17Line) word() string {
 	if l.Path != "" {
 		file = "P" + hx(l.Path)
 	}
+	if l.Cond {
+		file = "C" + file
+	}
 	if !l.Assign {
 		return fmt.Sprintf("%s:%d:x", file, l.Lineno)
 	}
@@ -141,6 +147,9 @@ func (p c17Prog) String() string {
 	ts := make([]string, len(p))
 	for i, l := range p {
 		t := strings.ReplaceAll(l.Text(), "\t", " ")
+		if l.Cond {
+			t = "[cond] " + t
+		}
 		if l.Path != "" {
 			t = fmt.Sprintf("[%s:%d] %s", l.Path, l.Lineno, t)
 		} else if l.File == 1 {
@@ -166,6 +175,13 @@ func (p c17Prog) spelled() bool {
 func (p c17Prog) req(cmd string) string {
 	if p.spelled() {
 		return cmd + "p"
+	}
+	if cmd == "chk" {
+		for _, l := range p {
+			if l.Cond {
+				return "chkc"
+			}
+		}
 	}
 	return cmd
 }
@@ -946,6 +962,15 @@ func c17UnitShard(ctx *Ctx, res *Result, spec c17ShardSpec) {
 	}
 	flush()
 	c17SpelledExtra(ctx, res, sps)
+	// programs with conditional sections
+	ncond := 3000
+	if ctx.Tier == "thorough" {
+		ncond = 30000
+	}
+	for i := 0; i < ncond; i++ {
+		add(c17RandomCondProgram(rng, res), "conditional", true)
+	}
+	flush()
 }
 
 func runC17Shard(ctx *Ctx) *Result {
@@ -1406,7 +1431,7 @@ func c17CrossCheck(ctx *Ctx, res *Result) {
 		fmt.Fprintf(&sb, "Goal map (guard p%d) [%s] = [%s]. Proof. vm_compute. reflexivity. Qed.\n",
 			i, strings.Join(vs, "; "), strings.Join(grd, "; "))
 	}
-	sb.WriteString("From PV Require Import Model.RedundantPaths Spec.PathDenote Spec.SpellingIndep.\n")
+	sb.WriteString("From PV Require Import Model.RedundantPaths Model.RedundantCond Spec.PathDenote Spec.SpellingIndep.\n")
 	nsp := c17CrossCheckSpelled(ctx, res, &sb)
 	if res.Broken != "" {
 		return
@@ -1484,7 +1509,8 @@ func runC17(ctx *Ctx) *Result {
 		"pkgtree_spelling_detour-sibling": 5, "pkgtree_spelling_detour-updown": 5, "pkgtree_spelling_curdir-detour": 5,
 		"programs_spelled": 10000, "spelled_one_spelling": 5000, "spelled_one_spelling_non_canonical": 4000,
 		"spelled_one_spelling_non_canonical_with_verdicts": 1000, "spelled_file_spelled_in_two_ways": 500,
-		"crosschecked_spelled_goals": 60,
+		"crosschecked_spelled_goals": 75,
+		"programs_conditional": 20000, "cond_lines_conditional_assignments": 20000, "cond_programs_with_later_plain_write": 5000,
 		"pkgtree_frag_own": 20, "pkgtree_frag_other": 10, "pkgtree_frag_shared": 10,
 	}
 	for _, k := range sortedKeys(floors) {
